@@ -240,7 +240,7 @@ func judgeCtor(m *mon.M, sp *ctorSpec, key []byte, r *rand.Rand) {
 func TestC12(t *testing.T) {
 	m := mon.New(t, "C12")
 	defer m.Done()
-	m.Rule("streams: per cipher, case i fixes the key length deterministically (Blowfish 1+(i mod 56); Twofish 16/24/32 by i mod 3; CAST5/TEA/XTEA 16), draws the key (70% random, else zero/ones/repeated byte/short period) and 4 blocks (3 random + one of zero/ones/single-bit/single-zero-bit); per block the monitor judges Encrypt vs oracle (separate + in place), Decrypt(Encrypt(x))=x (separate + in place) and Decrypt(x) vs oracle. Blowfish salted: NewSaltedCipher(key 1..72+, salt) then j rounds of ExpandKey(key)/ExpandKey(salt) as bcrypt does, vs the EksBlowfish ref (16-byte salts as in the bcrypt paper; other salt lengths 1..64 with OpenBSD's cyclic salt reading, separate verdict key). TEA: rounds from {0,2,4,8,16,32,64,128,even<=400} (ref with rounds/2 cycles), odd rounds must be refused, negative even rounds: either refusal or an invertible cipher. Streams shared-block-concurrent-{p1,pN}: even cases ONE cipher.Block value (Blowfish, salted/re-expanded Blowfish, Twofish 16/24/32, CAST5, TEA, XTEA, RC2 via the hook) used by 4..8 goroutines at once, odd cases one distinct value per goroutine at once; each goroutine runs a fixed PRNG-determined list of 40..79 Encrypt/Decrypt calls (separate buffer or in place, Gosched after a quarter of them) 6 times over a pool of blocks whose expected outputs were computed single-threaded from the oracles beforehand; goroutines meet at a barrier, results are judged after the join; pass p1 under GOMAXPROCS(1), pass pN at the default; the verif,race variant runs only these streams under the race detector. Enumerated parts: every constructor x every key length 0..64 (Blowfish 0..130), nil and empty key; every Blowfish key length 1..56 x 3 keys. distinct = (cipher, key length, key kind[, rounds class / salt length]); non-trivial = reached an oracle comparison or a constructor verdict")
+	m.Rule("streams: per cipher, case i fixes the key length deterministically (Blowfish 1+(i mod 56); Twofish 16/24/32 by i mod 3; CAST5/TEA/XTEA 16), draws the key (70% random, else zero/ones/repeated byte/short period) and 4 blocks (3 random + one of zero/ones/single-bit/single-zero-bit); per block the monitor judges Encrypt vs oracle (separate + in place), Decrypt(Encrypt(x))=x (separate + in place) and Decrypt(x) vs oracle. Blowfish salted: NewSaltedCipher(key 1..72+, salt) then j rounds of ExpandKey(key)/ExpandKey(salt) as bcrypt does, vs the EksBlowfish ref (16-byte salts as in the bcrypt paper; other salt lengths 1..64 with OpenBSD's cyclic salt reading, separate verdict key). TEA: rounds from {0,2,4,8,16,32,64,128,even<=400} (ref with rounds/2 cycles), odd rounds must be refused, negative even rounds: either refusal or an invertible cipher. Streams shared-block-concurrent-{p1,pN}: even cases ONE cipher.Block value (Blowfish, salted/re-expanded Blowfish, Twofish 16/24/32, CAST5, TEA, XTEA, RC2 via the hook) used by 4..8 goroutines at once, odd cases one distinct value per goroutine at once; each goroutine runs a fixed PRNG-determined list of 40..79 Encrypt/Decrypt calls (separate buffer or in place, Gosched after a quarter of them) 6 times over a pool of blocks whose expected outputs were computed single-threaded from the oracles beforehand; goroutines meet at a barrier, results are judged after the join; pass p1 under GOMAXPROCS(1), pass pN at the default; the verif,race variant runs only these streams under the race detector. Stream constructor-argument-retention: each constructor taking a byte slice (blowfish NewCipher/NewSaltedCipher key and salt/ExpandKey argument, twofish, cast5, tea NewCipher/NewCipherWithRounds, xtea, RC2 hook) is given a caller buffer with spare capacity; the buffer is then zeroed / overwritten / bit-flipped (whole capacity), in half of the cases after a second cipher was built from the same buffer refilled with another key; every cipher must still equal the reference under the argument it was built from. Enumerated parts: every constructor x every key length 0..64 (Blowfish 0..130), nil and empty key; every Blowfish key length 1..56 x 3 keys. distinct = (cipher, key length, key kind[, rounds class / salt length]); non-trivial = reached an oracle comparison or a constructor verdict")
 	m.Assume("Blowfish ref derives P/S from pi (Machin, math/big), self-tested on Schneier's vectors, on bcrypt hashes and against libgcrypt (1..72-byte keys) and nettle (8..56); Twofish ref built from the paper's 4-bit tables, self-tested on the paper's KATs and against nettle (16/24/32) and libgcrypt (16/32); TEA/XTEA refs transcribed from the reports, big-endian words as in the published byte-level vectors; CAST5 judged by agreement of libgcrypt and nettle")
 	m.Assume("a C witness that abstains (libgcrypt/nettle refuse Blowfish weak keys) is skipped; conflicting oracles give Inconclusive")
 	m.Note("RC2 (pkcs12/internal/rc2) is not importable from the harness: covered only through pkcs12.Decode of openssl-made PBE-SHA1-RC2-40 files (Decrypt, 5-byte keys, 40 effective bits = the only configuration reachable in this module); direct Encrypt/Decrypt and other effective key lengths need a verif re-export hook")
@@ -491,6 +491,8 @@ func TestC12(t *testing.T) {
 
 	concurrentBlockCiphers(m, "p1", concTotal)
 	concurrentBlockCiphers(m, "pN", concTotal)
+
+	constructorArgumentRetention(m, m.N(400, 8000))
 
 	// ---------------- exhaustive: constructors x key lengths ----------------
 	specs := ctorSpecs()
